@@ -36,6 +36,9 @@ use vls_persist::kvv::memory::MemoryKVVStore;
 use vls_persist::kvv::{JsonFormat, KVVPersister, KVVStore, KVV};
 
 pub type SimPersister = KVVPersister<CloudKVVStore<MemoryKVVStore>, JsonFormat>;
+/// `world backup`: the node persists through `BackupPersister<main, backup>`; the main side is a plain
+/// in-memory KVV store, the backup side is the transactional `SimPersister` every other world uses alone
+pub type MainPersister = KVVPersister<MemoryKVVStore, JsonFormat>;
 
 const CHANNEL_VALUE: u64 = 3_000_000;
 const INITIAL_COMMITMENT_NUMBER: u64 = (1 << 48) - 1;
@@ -60,6 +63,10 @@ pub struct Sim {
     pub rogue: std::collections::BTreeSet<u64>,
     /// the ready channel has a permanent id different from its initial id
     pub perm: bool,
+    /// what the node writes through: `persister` itself, or the composite in `world backup`
+    pub node_persister: Arc<dyn Persist>,
+    /// `world backup`: the main side of the composite
+    pub main: Option<Arc<MainPersister>>,
 }
 
 fn services(persister: Arc<dyn Persist>, clock: Arc<ManualClock>, perm: bool) -> NodeServices {
@@ -173,10 +180,17 @@ impl Sim {
             use_checkpoints: !nocp,
             allow_deep_reorgs: true,
         };
+        // `world backup`: writes go to a main store first and then to the (transactional) backup store
+        let main: Option<Arc<MainPersister>> =
+            if first_op == "world backup" { Some(Arc::new(KVVPersister(MemoryKVVStore::new([7u8; 16]), JsonFormat))) } else { None };
+        let node_persister: Arc<dyn Persist> = match &main {
+            Some(m) => Arc::new(vls_persist::backup_persister::BackupPersister::new(super::tap::Tap::new(m.clone()), super::tap::Tap::new(persister.clone()))),
+            None => persister.clone(),
+        };
         persister.enter().unwrap();
-        let node = Arc::new(Node::new(config, &seed, vec![], services(persister.clone(), clock.clone(), perm)));
-        persister.new_node(&node.get_id(), &config, &*node.get_state()).unwrap();
-        persister.new_tracker(&node.get_id(), &node.get_tracker()).unwrap();
+        let node = Arc::new(Node::new(config, &seed, vec![], services(node_persister.clone(), clock.clone(), perm)));
+        node_persister.new_node(&node.get_id(), &config, &*node.get_state()).unwrap();
+        node_persister.new_tracker(&node.get_id(), &node.get_tracker()).unwrap();
         node.add_allowlist(&[]).unwrap();
         let node_ctx = TestNodeContext { node, secp_ctx: Secp256k1::signing_only() };
         // three blocks so that the channel has a chain to live on
@@ -186,7 +200,7 @@ impl Sim {
                 let (header, proof) = make_testnet_header(tracker.tip(), tracker.height());
                 tracker.add_block(header, proof).unwrap();
             }
-            persister.update_tracker(&node_ctx.node.get_id(), &tracker).unwrap();
+            node_persister.update_tracker(&node_ctx.node.get_id(), &tracker).unwrap();
         }
         let chan_ctx = if !perm && !fresh {
             fund_test_channel(&node_ctx, CHANNEL_VALUE)
@@ -233,6 +247,8 @@ impl Sim {
             last_pre_commit: BTreeMap::new(),
             rogue: Default::default(),
             perm,
+            node_persister,
+            main,
         }
     }
 
@@ -676,13 +692,39 @@ impl Sim {
 
     /// Replace the running node by one restored from the store (a real restart).
     pub fn restart(&mut self) -> (Outcome, usize) {
+        self.restart_with(false)
+    }
+
+    /// `world backup` only: the main store is lost (replaced by an empty one that reports
+    /// `recovery_required`), the signer restarts, recovers from the backup and re-syncs the main store.
+    pub fn main_loss(&mut self) -> (Outcome, usize) {
+        // only meaningful in `world backup` (a shrunk case that lost its world line is malformed)
+        assert!(self.main.is_some(), "mainloss outside world backup");
+        self.restart_with(true)
+    }
+
+    fn restart_with(&mut self, lose_main: bool) -> (Outcome, usize) {
+        use std::sync::atomic::Ordering;
+        let mut recovery = None;
+        if self.main.is_some() {
+            // a process start builds a new composite (its "initial restore complete" flag starts false)
+            if lose_main {
+                self.main = Some(Arc::new(KVVPersister(MemoryKVVStore::new([7u8; 16]), JsonFormat)));
+            }
+            let tap = super::tap::Tap::new(self.main.clone().unwrap());
+            tap.recovery.store(lose_main, Ordering::Relaxed);
+            recovery = Some(tap.recovery.clone());
+            self.node_persister = Arc::new(vls_persist::backup_persister::BackupPersister::new(tap, super::tap::Tap::new(self.persister.clone())));
+        }
         self.persister.enter().unwrap();
-        let nodes = self.persister.get_nodes().unwrap();
+        let nodes = self.node_persister.get_nodes().unwrap();
         let (node_id, entry) = nodes.into_iter().next().unwrap();
-        let p: Arc<dyn Persist> = self.persister.clone();
+        let p: Arc<dyn Persist> = self.node_persister.clone();
         let r = std::panic::catch_unwind(std::panic::AssertUnwindSafe(|| Node::restore_node(&node_id, entry, &self.seed, services(p, self.clock.clone(), self.perm))));
         let n = self.persister.prepare().len();
         self.persister.commit().unwrap();
+        // the re-synced main store is not empty any more
+        if let Some(f) = recovery { f.store(false, Ordering::Relaxed); }
         match r {
             Ok(Ok(node)) => {
                 self.node_ctx = TestNodeContext { node, secp_ctx: Secp256k1::signing_only() };
@@ -691,6 +733,13 @@ impl Sim {
             Ok(Err(e)) => (Outcome::Err(status_class(&e)), n),
             Err(_) => (Outcome::Panic("restore".into()), n),
         }
+    }
+
+    /// `world backup`: restore a second node from a copy of the MAIN store alone
+    pub fn restore_shadow_main(&self) -> Option<Result<Arc<Node>, String>> {
+        let m = self.main.as_ref()?;
+        let kvvs: Vec<KVV> = m.0.get_prefix("").unwrap().collect();
+        Some(self.restore_from(kvvs))
     }
 }
 
@@ -800,6 +849,7 @@ pub fn exec_op(sim: &mut Sim, op: &str) -> (Outcome, usize) {
         ["blkn", n] => sim.add_blocks(num(n) as u64),
         ["blk-", g] => sim.remove_block(*g == "g"),
         ["restart"] => sim.restart(),
+        ["mainloss"] => sim.main_loss(),
         _ => (Outcome::Err("bad-op".into()), 0),
     }
 }
